@@ -264,14 +264,57 @@ static inline int K_ivec_at(const struct IVEC* v, int i)
   __CPROVER_assert(0 <= i && i < v->n, "_current_subset_array index inside its range (VectorWithOffset::operator[] has no check in release builds)");
   return v->e[i];
 }
-/* randomly_permute_subset_order(): ASSUMED here to deliver a permutation of 0..num_subsets-1 (verified separately, bounded) */
-void K_randomly_permute_subset_order(const struct IR* self, struct IVEC* out)
-__CPROVER_requires(__CPROVER_is_fresh(out, sizeof(*out)) || 1)
-__CPROVER_assigns(*out)
-__CPROVER_ensures(out->n == self->num_subsets)
-__CPROVER_ensures((0 <= g_a && g_a < out->n) ==> (0 <= out->e[g_a] && out->e[g_a] < self->num_subsets))
-__CPROVER_ensures((0 <= g_a && g_a < g_b && g_b < out->n) ==> out->e[g_a] != out->e[g_b])
-;
+/* randomly_permute_subset_order(): the REAL body is kernel K_randomly_permute_subset_order; the jobs of get_subset_num replace the call by this contract.
+   Result: index range [0,num_subsets), every element a subset number, no subset number twice (ghost indices g_a < g_b) = a permutation. */
+#ifndef RAND_MAX
+#define RAND_MAX 2147483647 /* glibc */
+#endif
+static inline int K_rand(void) { int r = nondet_int(); __CPROVER_assume(0 <= r && r <= RAND_MAX); /* rand(): C standard */ return r; }
+#define RP_CAT_(a, b) a##b
+#define RP_CAT(a, b) RP_CAT_(a, b)
+#define RP_STR_(x) #x
+#define RP_STR(x) RP_STR_(x)
+#if defined(C06_S) && C06_S <= 96
+#define RP_N C06_S
+#include RP_STR(RP_CAT(rpso_inv_, C06_S).h)
+#else /* jobs in which this kernel is not called at all */
+#define RP_N MAXSUB
+#define RP_INIT(i) 1
+#define RP_RANGE(m) 1
+#define RP_VRANGE(m, j) 1
+#define RP_COUNT_T(m, g) 1
+#define RP_COUNT_V(m, j, g) 0
+#define RP_COUNT_F(i, g) 1
+#endif
+int g_val; /* ghost: any subset number */
+#define CONTRACT_K_randomly_permute_subset_order                                                                     \
+  __CPROVER_requires(__CPROVER_is_fresh(self, sizeof(*self)) && __CPROVER_is_fresh(out, sizeof(*out)))                 \
+  __CPROVER_requires(self->num_subsets >= 1 && self->num_subsets <= MAXSUB && C06_S_OK(self->num_subsets))             \
+  __CPROVER_assigns(*out)                                                                                              \
+  __CPROVER_ensures(out->n == self->num_subsets)                                                                       \
+  __CPROVER_ensures(!(0 <= g_a && g_a < out->n) || (0 <= out->e[g_a] && out->e[g_a] < self->num_subsets))              \
+  /* every subset number occurs exactly once among the num_subsets elements */                                      \
+  __CPROVER_ensures(!(0 <= g_val && g_val < self->num_subsets) || RP_COUNT_F(RP_N, g_val) == 1)
+/* loop 0: temp_array[k] = k */
+#define LC_K_randomly_permute_subset_order_0                                                                         \
+  __CPROVER_assigns(i, __CPROVER_object_whole(temp_array))                                                             \
+  __CPROVER_loop_invariant(0 <= i && i <= RP_N && RP_INIT(i))                                                          \
+  __CPROVER_decreases(RP_N - i)
+/* loop 1: i elements drawn into the result; the RP_N - i not yet drawn are temp_array[0 .. RP_N-i): g_val is in exactly one of the two */
+#define LC_K_randomly_permute_subset_order_1                                                                         \
+  __CPROVER_assigns(i, index, __CPROVER_object_whole(temp_array), __CPROVER_object_whole(out->e))                      \
+  __CPROVER_loop_invariant(0 <= i && i <= RP_N && out->n == RP_N)                                                      \
+  __CPROVER_loop_invariant(RP_RANGE(RP_N - i))                                                                         \
+  __CPROVER_loop_invariant(!(0 <= g_a && g_a < i) || (0 <= out->e[g_a] && out->e[g_a] < RP_N))                         \
+  __CPROVER_loop_invariant(!(0 <= g_val && g_val < RP_N) || RP_COUNT_T(RP_N - i, g_val) + RP_COUNT_F(i, g_val) == 1)   \
+  __CPROVER_decreases(RP_N - i)
+/* loop 2: closing the gap at index; V = temp_array without slot j = the not yet drawn elements, unchanged by the shifting */
+#define LC_K_randomly_permute_subset_order_2                                                                         \
+  __CPROVER_assigns(j, __CPROVER_object_whole(temp_array))                                                             \
+  __CPROVER_loop_invariant(index <= j && j <= RP_N - (i + 1))                                                          \
+  __CPROVER_loop_invariant(RP_VRANGE(RP_N - i - 1, j))                                                                 \
+  __CPROVER_loop_invariant(!(0 <= g_val && g_val < RP_N) || RP_COUNT_V(RP_N - i - 1, j, g_val) + RP_COUNT_F(i + 1, g_val) == 1) \
+  __CPROVER_decreases(RP_N - (i + 1) - j)
 #define IR_VALID(s) (C06_S_OK((s)->num_subsets) && (s)->num_subsets >= 1 && (s)->num_subsets <= MAXSUB && (s)->subiteration_num >= 1 && (s)->subiteration_num < (1 << 30) \
                      && (s)->start_subset_num >= 0 && (s)->start_subset_num < (s)->num_subsets)
 #define CONTRACT_K_get_subset_num                                                                                    \
